@@ -107,6 +107,23 @@ Theorem C15_lazy_copy_refuted :
   /\ read_line (d_heap st) 2 <> Ok v0.
 Proof. vm_compute. repeat split; try reflexivity. discriminate. Qed.
 
+(* the "per-node scratch line" shape — dispatch copies INTO a Line owned by the handler node — is
+   refuted for a LATER invocation: invocation 1 of the node holds address a (a deep copy of event 1);
+   when event 2 (a second parsed line at address 4, one argument, no tags) is dispatched to the same
+   node, copy_into overwrites the struct and the Args array at a: what invocation 1 reads through ITS
+   line is no longer event 1 *)
+Definition ex_heap2 : lheap :=
+  ex_heap ++ [OArgs [[122]]%N; OLine {| lo_scal := [[109]; []; []; [116]; [67]; [82]]%N; lo_args_at := 3; lo_args_len := 1; lo_tags_at := None |}].
+Theorem C15_scratch_line_refuted :
+  let v1 := {| v_scal := [[110]; []; []; [115]; [67]; [114]]%N; v_args := [[97]; [98]]%N; v_tags := Some [([107]%N, [118]%N)] |} in
+  exists hp1 a hp2,
+    copy_line (fun m => m) ex_heap2 2 = Ok (hp1, a) /\ read_line hp1 a = Ok v1
+    /\ copy_into hp1 4 a = Ok hp2
+    /\ read_line hp2 4 = read_line ex_heap2 4            (* invocation 2 does get event 2 ... *)
+    /\ read_line hp2 a = read_line hp2 4                 (* ... through the very line invocation 1 holds *)
+    /\ C15_ok v1 match read_line hp2 a with Ok v => [v] | Panic => [] end = false.
+Proof. vm_compute. do 3 eexists. repeat split; reflexivity. Qed.
+
 Print Assumptions tie_C15.
 Print Assumptions C15_copy_deep.
 Print Assumptions C15_equal.
@@ -115,3 +132,4 @@ Print Assumptions C15_noninterference.
 Print Assumptions C15_ok_says.
 Print Assumptions C15_example.
 Print Assumptions C15_lazy_copy_refuted.
+Print Assumptions C15_scratch_line_refuted.
